@@ -128,15 +128,23 @@ func c05Oracle(c mgCase, items [][]string, schemas []*ast.Schema, outs []mgOutco
 	if len(accepted) > 0 && len(rejected) > 0 {
 		f := hx.Failure{Kind: "property-fails", Detail: fmt.Sprintf("acceptance depends on the order of the service list: accepted as %v, rejected as %v (%s)", accepted[0].Perm, rejected[0].Perm, rejected[0].Err),
 			Impl: []interface{}{stripOutcome(accepted[0]), stripOutcome(rejected[0])}}
-		onlyCopy, onlyNodeReload := true, true
+		// every rejection must fail in the documented way of an open finding whose input class holds
+		mixed := len(c.SDL) >= 3 && mixedSharedType(schemas)
+		nodeDiff := nodeDefsDiffer(items)
+		explained, anyCopy := true, false
 		for _, o := range rejected {
-			onlyCopy = onlyCopy && o.Kind == "not-complete-copy"
-			onlyNodeReload = onlyNodeReload && o.Kind == "reload-error" && strings.Contains(o.Err, "to implement Node it must have a field")
+			switch {
+			case mixed && o.Kind == "not-complete-copy":
+				anyCopy = true
+			case nodeDiff && o.Kind == "reload-error" && strings.Contains(o.Err, "to implement Node it must have a field"):
+			default:
+				explained = false
+			}
 		}
 		switch {
-		case len(c.SDL) >= 3 && mixedSharedType(schemas) && onlyCopy:
+		case explained && anyCopy:
 			f.Class = "C05-order-nway"
-		case nodeDefsDiffer(items) && onlyNodeReload:
+		case explained:
 			f.Class = "C05-node-def-differs"
 		}
 		fs.add("order-accept", f)
